@@ -208,6 +208,15 @@ def do_replay(path):
         return p.returncode
     from . import worker
     prop = worker.load_prop(rec['property'])
+    for k, prev in enumerate(rec.get('preceding') or []):
+        # worlds the same worker process executed before the failing one (they left state
+        # behind inside PyRTL that the failing world depends on)
+        try:
+            r0 = worker.run_case(prop, prev, getattr(prop, 'RUN_TIMEOUT_S', 30.0))
+            print('  preceding world %d: %s' % (k, 'violation %s/%s' % (r0.violation.oracle, r0.violation.cls)
+                                               if r0.violation else 'no violation'))
+        except Exception as e:
+            print('  preceding world %d: %s' % (k, type(e).__name__))
     res = worker.run_case(prop, rec['case'], getattr(prop, 'RUN_TIMEOUT_S', 30.0), keep_log=True)
     v = res.violation
     if v is None:
